@@ -1,6 +1,6 @@
 (* fuse_nodes preserves what every sink denotes, for any callback that keeps its contract:
-   the node it returns denotes the child (with the parent inlined) and keeps the child's
-   other inputs. *)
+   the node it returns -- a new object, or the child object written in place -- denotes the
+   child (with the parent inlined) and keeps the child's other inputs. *)
 From Coq Require Import List String Bool Arith Lia.
 From EKW Require Import Graph.GStore Graph.Denote Graph.Engine Graph.EngineProofs Graph.DedupProofs Graph.Fuse.
 Import ListNotations.
@@ -36,7 +36,7 @@ Section FuseP.
 Variable P V : Type.
 Variable interp : option P -> list string -> list (string * V) -> string -> V.
 Notation sem := (sem interp).
-Variable func : node P -> string -> node P -> string -> option (node P).
+Variable func : node P -> string -> node P -> string -> option (bool * node P).
 Variable orig_count : nat -> nat.
 Variable h : list (node P).
 Hypothesis Ht : topo h.
@@ -48,10 +48,10 @@ Hypothesis Hkeys : forall n nd, nth_error h n = Some nd -> NoDup (map fst (nins 
    child's inputs other than cin, and -- if the child's input cin is connected to
    something that denotes what output pout of the parent denotes -- denotes what the child
    denotes *)
-Hypothesis func_contract : forall (H : list (node P)) rp pn pout cur cin fused,
+Hypothesis func_contract : forall (H : list (node P)) rp pn pout cur cin ip fused,
   topo H -> nth_error H rp = Some pn ->
   Forall (fun x => fst (snd x) < List.length H) (nins cur) ->
-  func pn pout cur cin = Some fused ->
+  func pn pout cur cin = Some (ip, fused) ->
   Forall (fun x => fst (snd x) < List.length H) (nins fused) /\
   (forall k, k <> cin -> lookup k (nins fused) = lookup k (nins cur)) /\
   (forall q, lookup cin (nins cur) = Some (q, pout) -> (forall o, sem H q o = sem H rp o) ->
@@ -65,35 +65,43 @@ Proof.
   rewrite Forall_forall in HF. now rewrite sem_old by (apply HF; assumption).
 Qed.
 
-Lemma fuse_inputs_spec : forall cnt (X : string -> V) inputs Hp cur any calls H1 cur1 any1 calls1,
+Lemma fuse_inputs_spec : forall cnt (X : string -> V) inputs Hp cur self is_self any calls H1 cur1 self1 any1 calls1,
   topo (Hp ++ [cur]) ->
   (forall o, sem (Hp ++ [cur]) (List.length Hp) o = X o) ->
+  (self < List.length (Hp ++ [cur]) /\ forall o, sem (Hp ++ [cur]) self o = X o) ->
   NoDup (map fst inputs) ->
   Forall (fun x => fst (snd x) < List.length Hp /\
                    exists q, lookup (fst x) (nins cur) = Some (q, snd (snd x)) /\ q < List.length Hp /\
                              forall o, sem Hp q o = sem Hp (fst (snd x)) o) inputs ->
-  fuse_inputs func cnt (Hp ++ [cur]) cur any calls inputs = Ok (H1, cur1, any1, calls1) ->
+  fuse_inputs func cnt (Hp ++ [cur]) cur self is_self any calls inputs = Ok (H1, cur1, self1, any1, calls1) ->
   (exists ext, H1 = (Hp ++ [cur]) ++ ext) /\
   (exists Hp1, H1 = Hp1 ++ [cur1] /\ forall o, sem H1 (List.length Hp1) o = X o) /\
   topo H1 /\
+  (self1 < List.length H1 /\ forall o, sem H1 self1 o = X o) /\
   (any1 = false -> any = false /\ H1 = Hp ++ [cur] /\ cur1 = cur).
 Proof.
   intros cnt X inputs. induction inputs as [|[iname [rp oname]] rest IH];
-    intros Hp cur any calls H1 cur1 any1 calls1 HT HX ND HF H; simpl in H.
-  - injection H as <- <- <- <-. split; [exists []; now rewrite app_nil_r|].
-    split; [exists Hp; split; [reflexivity|assumption]|]. split; [assumption|]. auto.
+    intros Hp cur self is_self any calls H1 cur1 self1 any1 calls1 HT HX HS ND HF H; simpl in H.
+  - injection H as <- <- <- <- <-. split; [exists []; now rewrite app_nil_r|].
+    split; [exists Hp; split; [reflexivity|assumption]|]. split; [assumption|]. split; [assumption|]. auto.
   - inversion ND as [|? ? Hni ND']; subst. inversion HF as [|? ? Hhead HF']; subst.
     destruct (Nat.ltb 1 (count_of rp cnt)); [eapply IH; eassumption|].
     destruct (nth_error (Hp ++ [cur]) rp) as [pn|] eqn:Hrp; [|discriminate].
-    destruct (func pn oname cur iname) as [fused|] eqn:Hfu; [|eapply IH; eassumption].
+    destruct (func pn oname cur iname) as [[ip fused]|] eqn:Hfu; [|eapply IH; eassumption].
     simpl in Hhead. destruct Hhead as (Hrpl & q & Hq & Hql & Hqs).
     rewrite nth_error_app1 in Hrp by assumption.
-    destruct (func_contract Hp rp pn oname cur iname fused (topo_prefix _ _ _ HT) Hrp (topo_last _ _ _ HT) Hfu)
+    destruct (func_contract Hp rp pn oname cur iname ip fused (topo_prefix _ _ _ HT) Hrp (topo_last _ _ _ HT) Hfu)
       as (Hfi & Hfk & Hfs).
     assert (HT2 : topo ((Hp ++ [cur]) ++ [fused])).
     { apply topo_snoc; [assumption|]. eapply Forall_impl; [|exact Hfi]. intros a Ha. rewrite app_length. simpl in *. lia. }
     assert (HX2 : forall o, sem ((Hp ++ [cur]) ++ [fused]) (List.length (Hp ++ [cur])) o = X o).
     { intros o. rewrite sem_last_skip by assumption. rewrite (Hfs q Hq Hqs). apply HX. }
+    assert (HS2 : (if is_self && ip then List.length (Hp ++ [cur]) else self) < List.length ((Hp ++ [cur]) ++ [fused]) /\
+                  forall o, sem ((Hp ++ [cur]) ++ [fused]) (if is_self && ip then List.length (Hp ++ [cur]) else self) o = X o).
+    { destruct (is_self && ip).
+      - split; [rewrite (app_length (Hp ++ [cur])); simpl; lia|exact HX2].
+      - destruct HS as [HSl HSs]. split; [rewrite (app_length (Hp ++ [cur])); simpl; lia|].
+        intros o. rewrite sem_old by assumption. apply HSs. }
     assert (HF2 : Forall (fun x => fst (snd x) < List.length (Hp ++ [cur]) /\
                    exists q, lookup (fst x) (nins fused) = Some (q, snd (snd x)) /\ q < List.length (Hp ++ [cur]) /\
                              forall o, sem (Hp ++ [cur]) q o = sem (Hp ++ [cur]) (fst (snd x)) o) rest).
@@ -101,9 +109,9 @@ Proof.
       rewrite app_length. simpl. split; [lia|]. exists q'. split.
       - rewrite Hfk; [assumption|]. intros Heq. apply Hni. rewrite <- Heq. apply in_map_iff. now exists x.
       - split; [lia|]. intros o. rewrite !sem_old by assumption. apply H4'. }
-    destruct (IH _ _ _ _ _ _ _ _ HT2 HX2 ND' HF2 H) as ((ext & He) & Hb & Hc & Hd).
+    destruct (IH _ _ _ _ _ _ _ _ _ _ _ HT2 HX2 HS2 ND' HF2 H) as ((ext & He) & Hb & Hc & Hs & Hd).
     split; [exists ([fused] ++ ext); rewrite He, <- !app_assoc; reflexivity|].
-    split; [assumption|]. split; [assumption|].
+    split; [assumption|]. split; [assumption|]. split; [assumption|].
     intros Ha. destruct (Hd Ha) as [Hfalse _]. discriminate.
 Qed.
 
@@ -156,9 +164,12 @@ Proof.
       rewrite Hf. destruct i as [ik [ip io]]. simpl.
       rewrite (lookup_nodup_in _ ik (ip, io) (nins nd) (Hkeys n nd Hn) Hi). reflexivity.
     - destruct (Hobj i Hi) as [Hol Hos]. split; [assumption|]. intros o. rewrite Hos, Hrs. reflexivity. }
-  destruct (fuse_inputs func (fcount st) (fheap st ++ [cur0]) cur0 false (fcalls st) inputs) as [[[[H1 cur1] any1] calls1]|] eqn:Hfi; simpl in Hv; [|discriminate].
-  destruct (fuse_inputs_spec _ (sem h n) _ _ _ _ _ _ _ _ _ HT0 HX0 (eq_ind_r (fun l => NoDup l) (Hkeys n nd Hn) Hfst) HFi Hfi)
-    as ((ext & He) & (Hp1 & Hh1 & Hs1) & HT1 & Hnf).
+  destruct (fuse_inputs func (fcount st) (fheap st ++ [cur0]) cur0 (List.length (fheap st)) true false (fcalls st) inputs) as [[[[[H1 cur1] self1] any1] calls1]|] eqn:Hfi; simpl in Hv; [|discriminate].
+  assert (HS0 : List.length (fheap st) < List.length (fheap st ++ [cur0]) /\
+                forall o, sem (fheap st ++ [cur0]) (List.length (fheap st)) o = sem h n o).
+  { split; [rewrite app_length; simpl; lia|exact HX0]. }
+  destruct (fuse_inputs_spec _ (sem h n) _ _ _ _ _ _ _ _ _ _ _ _ HT0 HX0 HS0 (eq_ind_r (fun l => NoDup l) (Hkeys n nd Hn) Hfst) HFi Hfi)
+    as ((ext & He) & (Hp1 & Hh1 & Hs1) & HT1 & (Hsl & Hss) & Hnf).
   destruct any1.
   - injection Hv as <- <-. unfold FI. simpl.
     assert (Hlen : List.length H1 - 1 = List.length Hp1) by (rewrite Hh1, app_length; simpl; lia).
@@ -168,8 +179,7 @@ Proof.
       * injection Heq as <- <-. rewrite Hlen. split; [rewrite Hh1, app_length; simpl; lia|]. exact Hs1.
       * rewrite Hext. apply (reps_app P V interp h (fheap st) _ done HR); assumption.
     + intros m r' [Heq|Hin].
-      * injection Heq as <- <-. split; [rewrite Hext, app_length; simpl; lia|].
-        intros o. rewrite He. rewrite sem_old by (rewrite app_length; simpl; lia). apply HX0.
+      * injection Heq as <- <-. split; [exact Hsl|exact Hss].
       * rewrite Hext. apply (reps_app P V interp h (fheap st) _ (fobj st) HO); assumption.
     + intros m r' [Heq|Hin].
       * injection Heq as <- <-. simpl. rewrite Nat.eqb_refl. eauto.
@@ -195,13 +205,13 @@ End FuseP.
 
 Lemma fuse_preserves_sem :
   forall (P V : Type) (interp : option P -> list string -> list (string * V) -> string -> V)
-         (func : node P -> string -> node P -> string -> option (node P)) (g g' : graph P) calls,
+         (func : node P -> string -> node P -> string -> option (bool * node P)) (g g' : graph P) calls,
   topo (heap g) ->
   (forall n nd, nth_error (heap g) n = Some nd -> NoDup (map fst (nins nd))) ->
-  (forall (H : list (node P)) rp pn pout cur cin fused,
+  (forall (H : list (node P)) rp pn pout cur cin ip fused,
      topo H -> nth_error H rp = Some pn ->
      Forall (fun x => fst (snd x) < List.length H) (nins cur) ->
-     func pn pout cur cin = Some fused ->
+     func pn pout cur cin = Some (ip, fused) ->
      Forall (fun x => fst (snd x) < List.length H) (nins fused) /\
      (forall k, k <> cin -> lookup k (nins fused) = lookup k (nins cur)) /\
      (forall q, lookup cin (nins cur) = Some (q, pout) -> (forall o, sem interp H q o = sem interp H rp o) ->
